@@ -43,13 +43,20 @@ func TestReplay(t *testing.T) { ev.RunReplay(t, judges) }
 // is active when it is listed here OR in /verif/known_findings.json (open).
 // VERIF_NO_EXCLUDE=1 disables all of them.
 var localKnownTags = map[string]bool{
-	"c09-literal-in-emit-range":                   true, // C09-1
-	"c09-abstract-literal-times-matrix":           true, // C09-2
-	"c09-const-array-of-vec-index-folds-to-scalar": true, // C09-3
-	"c09-exprtype-dropped-by-compact-types":       true, // C09-4
-	"c09-stale-exprtype-after-concretize":         true, // C09-5
-	"c09-atomicstore-value-emitted-after-store":   true, // C09-6
-	"c09-swizzle-of-pointer-param-without-load":   true, // C09-7
+	"c09-folded-constant-in-emit-range":                  true, // C09-1
+	"c09-abstract-literal-times-matrix":                  true, // C09-2
+	"c09-const-composite-access-folds-to-flat-scalar":    true, // C09-3
+	"c09-exprtype-dropped-by-compact-types":              true, // C09-4
+	"c09-stale-exprtype-after-concretize":                true, // C09-5
+	"c09-atomicstore-value-emitted-after-store":          true, // C09-6
+	"c09-swizzle-of-pointer-param-without-load":          true, // C09-7
+	"c09-math-transpose-determinant-type":                true, // C09-8
+	"c09-compound-assign-through-pointer-param":          true, // C09-9
+	"c09-const-matrix-arithmetic-folds-to-vector":        true, // C09-10
+	"c09-extractbits-abstract-arg-typed-u32":             true, // C09-11
+	"c09-bitcast-of-abstract-literal":                    true, // C09-12
+	"c09-validate-duplicate-binding-across-entry-points": true, // C09-13
+	"c09-compound-assign-abstract-splat-rhs":             true, // C09-14
 }
 
 func excluded(tag string) bool {
@@ -201,7 +208,10 @@ func report(v verdict, suppressed map[int]bool) (bool, string) {
 		}
 		lines = append(lines, is.String())
 	}
-	for _, e := range v.nagaErrs {
+	for i, e := range v.nagaErrs {
+		if suppressed[-1-i] {
+			continue
+		}
 		lines = append(lines, "naga.validate: "+e)
 	}
 	if len(lines) == 0 {
@@ -224,6 +234,74 @@ func report(v verdict, suppressed map[int]bool) (bool, string) {
 		}
 	}
 	return false, msg
+}
+
+// usedGlobals returns, per entry point, the global variables it statically uses
+// (through the functions it calls).
+func usedGlobals(m *ir.Module) []map[ir.GlobalVariableHandle]bool {
+	fnUses := make([]map[ir.GlobalVariableHandle]bool, len(m.Functions))
+	var ofFn func(i int, depth int) map[ir.GlobalVariableHandle]bool
+	collect := func(f *ir.Function, depth int) map[ir.GlobalVariableHandle]bool {
+		out := map[ir.GlobalVariableHandle]bool{}
+		for _, e := range f.Expressions {
+			if g, ok := e.Kind.(ir.ExprGlobalVariable); ok {
+				out[g.Variable] = true
+			}
+		}
+		var walk func(b ir.Block, d int)
+		walk = func(b ir.Block, d int) {
+			if d > 500 {
+				return
+			}
+			for _, st := range b {
+				if c, ok := st.Kind.(ir.StmtCall); ok && int(c.Function) < len(m.Functions) && depth < 64 {
+					for g := range ofFn(int(c.Function), depth+1) {
+						out[g] = true
+					}
+				}
+				for _, sb := range irx.SubBlocks(st.Kind) {
+					walk(sb, d+1)
+				}
+			}
+		}
+		walk(ir.Block(f.Body), 0)
+		return out
+	}
+	ofFn = func(i int, depth int) map[ir.GlobalVariableHandle]bool {
+		if fnUses[i] == nil {
+			fnUses[i] = map[ir.GlobalVariableHandle]bool{} // cut recursion
+			fnUses[i] = collect(&m.Functions[i], depth)
+		}
+		return fnUses[i]
+	}
+	eps := make([]map[ir.GlobalVariableHandle]bool, len(m.EntryPoints))
+	for i := range m.EntryPoints {
+		eps[i] = collect(&m.EntryPoints[i].Function, 0)
+	}
+	return eps
+}
+
+// bindingSharedWithinEntryPoint: some entry point uses two resources with the same @group/@binding.
+func bindingSharedWithinEntryPoint(m *ir.Module) bool {
+	for _, used := range usedGlobals(m) {
+		seen := map[ir.ResourceBinding]bool{}
+		var hs []int
+		for g := range used {
+			hs = append(hs, int(g))
+		}
+		sort.Ints(hs)
+		for _, g := range hs {
+			if g >= len(m.GlobalVariables) || m.GlobalVariables[g].Binding == nil {
+				continue
+			}
+			rb := *m.GlobalVariables[g].Binding
+			if seen[rb] {
+				return true
+			}
+			seen[rb] = true
+		}
+	}
+	return false
 }
 
 // ---- shapes of the known findings ---------------------------------------------------
@@ -307,8 +385,9 @@ func matchKnown(m *ir.Module, is irx.Issue) string {
 	case irx.RuleEmitPre:
 		// C09-1: literals created by constant folding / zero-value expansion /
 		// constant deep-copy land inside the open Emit range.
-		if _, ok := kind.(ir.Literal); ok {
-			return "c09-literal-in-emit-range"
+		switch kind.(type) {
+		case ir.Literal, ir.ExprZeroValue:
+			return "c09-folded-constant-in-emit-range"
 		}
 	case irx.RuleAbstractLiteral, irx.RuleTypingMismatch:
 		// C09-2: `mat * 2.0` / `2 * mat` keeps the abstract literal.
@@ -319,6 +398,10 @@ func matchKnown(m *ir.Module, is irx.Issue) string {
 					return "c09-abstract-literal-times-matrix"
 				}
 			}
+		}
+		// C09-14: `v op= vecN(<abstract literal>)` keeps the abstract literal under the Splat.
+		if is.Fn != nil && abstractUnderSplat(is.Fn, is.Expr) {
+			return "c09-compound-assign-abstract-splat-rhs"
 		}
 		if is.Rule == irx.RuleAbstractLiteral {
 			return ""
@@ -355,17 +438,50 @@ func matchKnown(m *ir.Module, is irx.Issue) string {
 			return "c09-atomicstore-value-emitted-after-store"
 		}
 	case irx.RuleStoreType, irx.RuleReturnType, irx.RuleCallArgType:
-		// C09-3: indexing a module-scope abstract const array of vectors folds to
-		// the first scalar: a scalar Literal flows where vecN of that scalar is expected.
+		// C09-3: an access into a `const` composite with nested composites (array of
+		// vectors, matrix, struct) is folded as an index into the flattened scalar
+		// list: a scalar Literal flows where vecN of that scalar is expected.
 		if _, ok := exprKind(is, is.Value).(ir.Literal); ok {
 			want, wok := irx.InnerOf(m, is.Recorded).(ir.VectorType)
 			got, gok := irx.InnerOf(m, is.Inferred).(ir.ScalarType)
 			if wok && gok && want.Scalar == got {
-				return "c09-const-array-of-vec-index-folds-to-scalar"
+				return "c09-const-composite-access-folds-to-flat-scalar"
 			}
 		}
 	}
 	return ""
+}
+
+func isAbstractLiteral(f *ir.Function, h int) bool {
+	if h < 0 || h >= len(f.Expressions) {
+		return false
+	}
+	if lit, ok := f.Expressions[h].Kind.(ir.Literal); ok {
+		switch lit.Value.(type) {
+		case ir.LiteralAbstractInt, ir.LiteralAbstractFloat:
+			return true
+		}
+	}
+	return false
+}
+
+// abstractUnderSplat: h is an abstract literal used by a Splat, or a Splat of an abstract literal.
+func abstractUnderSplat(f *ir.Function, h int) bool {
+	if h < 0 || h >= len(f.Expressions) {
+		return false
+	}
+	if sp, ok := f.Expressions[h].Kind.(ir.ExprSplat); ok {
+		return isAbstractLiteral(f, int(sp.Value))
+	}
+	if !isAbstractLiteral(f, h) {
+		return false
+	}
+	for i := h + 1; i < len(f.Expressions); i++ {
+		if sp, ok := f.Expressions[i].Kind.(ir.ExprSplat); ok && int(sp.Value) == h {
+			return true
+		}
+	}
+	return false
 }
 
 func operandOfMatrixMultiply(m *ir.Module, f *ir.Function, h int) bool {
@@ -455,6 +571,16 @@ func suppress(v verdict) map[int]bool {
 		if tag := matchKnown(v.module, is); tag != "" && excludedQuiet(tag) {
 			out[i] = true
 			ev.Class("known:" + tag)
+		}
+	}
+	// C09-13: ir.Validate wants @group/@binding unique over the whole module; WGSL
+	// only forbids two resources with one binding inside a single entry point's interface.
+	// naga.Validate errors are keyed -1-i.
+	const dupTag = "c09-validate-duplicate-binding-across-entry-points"
+	for i, e := range v.nagaErrs {
+		if strings.Contains(e, "duplicate binding @group(") && excludedQuiet(dupTag) && !bindingSharedWithinEntryPoint(v.module) {
+			out[-1-i] = true
+			ev.Class("known:" + dupTag)
 		}
 	}
 	return out
